@@ -64,13 +64,12 @@ class PluginGroupNotFound(PybtexError):
 class PluginNotFound(PybtexError):
 
     def __init__(self, plugin_group, name):
-        if not name.startswith('.'):
+        if not plugin_group.endswith('.suffixes'):
             message = u'plugin {plugin_group}.{name} not found'.format(
                 plugin_group=plugin_group,
                 name=name,
             )
         else:
-            assert plugin_group.endswith('.suffixes')
             message = (
                 u'plugin {plugin_group} for suffix {suffix} not found'.format(
                     plugin_group=plugin_group,
